@@ -26,9 +26,9 @@ using namespace chaiscript;
 
 namespace {
 
-  enum Ty { INT, DBL, BOOL, STR, BASE, DERIVED, OTHER, VEC, FN, ANY, NUM, CHR, UNDEF, FN2, N_TY };
+  enum Ty { INT, DBL, BOOL, STR, BASE, DERIVED, OTHER, VEC, FN, ANY, NUM, CHR, UNDEF, FN2, SRC, N_TY };
   enum Form { VAL, CREF, REF, PTR, CPTR, SP, SPC, RREF, N_FORM };
-  const char *ty_names[] = {"int", "double", "bool", "string", "Base", "Derived", "Other", "Vector", "function", "Boxed_Value", "Boxed_Number", "char", "undefined", "function of two"};
+  const char *ty_names[] = {"int", "double", "bool", "string", "Base", "Derived", "Other", "Vector", "function", "Boxed_Value", "Boxed_Number", "char", "undefined", "function of two", "Src (user-convertible to Other)"};
   const char *form_names[] = {"T", "const T&", "T&", "T*", "const T*", "shared_ptr<T>", "shared_ptr<const T>", "T&&"};
 
   struct Base6 {
@@ -42,6 +42,10 @@ namespace {
   struct Other6 {
     int id;
     explicit Other6(int i) : id(i) {}
+  };
+  // converts to Other6 through a user-defined (by-value) conversion registered before the run
+  struct Src6 {
+    int id;
   };
 
   struct Entry {
@@ -112,6 +116,14 @@ namespace {
     return Sig{{p1}, [](Engine &e, const std::string &name, int id) {
                  e.add(fun([id](P1 a) {
                          my_log().entries.push_back(Entry{id, {desc(a)}});
+                         // other actors get to run while this function holds its argument: what it received must not
+                         // change (or die) under it
+                         const size_t at = my_log().entries.size() - 1;
+                         sim_yield(7, nullptr);
+                         const std::string again = desc(a);
+                         if (again != my_log().entries[at].received[0]) {
+                           my_log().entries[at].received.push_back("changed-during-the-call:" + again);
+                         }
                          return id;
                        }),
                        name);
@@ -239,8 +251,13 @@ namespace {
         {"bind(fun(x, y) { x + y }, _, 5)", FN, false, true, "fn:8", 0},
         {"bind(fun(x, y, z) { x + y + z }, _, 1, _)", FN2, false, true, "fn2:8", 0},
         {"bind(fun(x, y) { x * y }, 2, _)", FN, false, true, "fn:6", 0},
+        // adjacent placeholders followed by a bound value: each open position takes the call argument of its rank
+        {"bind(fun(x, y, z) { x * 100 + y * 10 + z }, _, _, 9)", FN2, false, true, "fn2:349", 0},
+        {"bind(fun(w, x, y, z) { w * 1000 + x * 100 + y * 10 + z }, 7, _, _, 9)", FN2, false, true, "fn2:7349", 0},
         // a shared_ptr-held object the actor re-seats now and then through a C++ function taking shared_ptr<Base>&
         {"vrs", BASE, false, true, "obj:@", 0},
+        // a value of a type with a user-defined conversion to Other: the callee works on a temporary made for this call
+        {"src6()", SRC, false, false, "src:66", 0},
     };
     return a;
   }
@@ -283,6 +300,14 @@ namespace {
       // an arithmetic conversion produces a fresh (non-const) temporary of the parameter's type,
       // which may be handed out in any parameter form
       expected = p.ty == INT ? desc(int(a.num)) : desc(double(a.num));
+      return true;
+    }
+    if (p.ty == OTHER && a.ty == SRC) {
+      // the user conversion yields a fresh Other(1066) that lives for the duration of the call
+      if (needs_shared || p.form == RREF) {
+        return false;
+      }
+      expected = "other:1066";
       return true;
     }
     if (p.ty == BASE && a.ty == DERIVED && conv) {
@@ -403,6 +428,9 @@ namespace {
       e.add(constructor<Other6(int)>(), "Other");
       e.add(fun([]() -> const Base6 & { return the_const_base; }), "const_base");
       e.add(fun([]() { return static_cast<char>(-61); }), "neg_char");
+      e.add(user_type<Src6>(), "Src");
+      e.add(fun([]() { return Src6{66}; }), "src6");
+      e.add(type_conversion<Src6, Other6>([](const Src6 &s) { return Other6(s.id + 1000); }));
       e.add(fun([](std::shared_ptr<Base6> &p, int id) { p = std::make_shared<Base6>(id); }), "reseat_base");
 
       std::vector<std::vector<size_t>> mine(static_cast<size_t>(T));
@@ -656,6 +684,9 @@ namespace {
           if (sg.params.size() != call_args.size()) {
             bad("entered-with-wrong-arity", "overload takes " + std::to_string(sg.params.size()) + " parameters");
             continue;
+          }
+          if (en.received.size() > sg.params.size()) {
+            bad("received-value-changed-during-the-call", "parameter 0 first read as " + en.received[0] + ", after other threads ran: " + en.received.back());
           }
           bool all_exact = true;
           for (size_t q = 0; q < call_args.size(); ++q) {
